@@ -19,10 +19,19 @@ from mc.vloop import CLOCK, VLoop, LiveLock, task_result  # noqa
 # --------------------------------------------------------------------------
 
 
+class HardLiveLock(BaseException):
+    """Raised inside a task that keeps calling read() on a dead stream without ever yielding to the loop
+    (BaseException: the library's broad `except Exception` handlers must not swallow it)."""
+
+
 class FakeReader:
     """StreamReader look-alike: chunks as fed, b'' at EOF, sticky exception."""
 
+    SPIN_LIMIT = 300
+
     def __init__(self):
+        self.spin = 0  # consecutive read() calls that returned / raised at once on a dead stream
+        self.livelocked = False
         self.chunks = collections.deque()
         self.eof = False
         self.exc = None
@@ -55,9 +64,16 @@ class FakeReader:
     async def read(self, n=-1):
         self.reads += 1
         while True:
+            if self.exc is not None or (self.eof and not self.chunks):
+                # a dead stream answers at once, every time: a caller that retries in a loop never yields
+                self.spin += 1
+                if self.spin > self.SPIN_LIMIT:
+                    self.livelocked = True
+                    raise HardLiveLock("read() retried on a dead stream without yielding to the event loop")
             if self.exc is not None:
                 raise self.exc
             if self.chunks:
+                self.spin = 0
                 c = self.chunks.popleft()
                 if n is not None and 0 <= n < len(c):
                     self.chunks.appendleft(c[n:])
@@ -65,6 +81,7 @@ class FakeReader:
                 return c
             if self.eof:
                 return b""
+            self.spin = 0
             self.waiter = asyncio.get_running_loop().create_future()
             try:
                 await self.waiter
@@ -524,11 +541,15 @@ class World1:
             self.loop.run_ready()
         except LiveLock:
             self.livelock = True
+        if self.reader is not None and self.reader.livelocked:
+            self.livelock = True
 
     def advance(self, dt):
         try:
             self.loop.advance(dt)
         except LiveLock:
+            self.livelock = True
+        if self.reader is not None and self.reader.livelocked:
             self.livelock = True
 
     # -- peer actions ---------------------------------------------------------
